@@ -322,11 +322,29 @@ def check_chain(ctx: Ctx, c: Dict[str, Any], variant: int = 0) -> None:
         srcs0 = [base] if kind != "batch2" else [base, base2]
         try:
             L_ = 2  # (levels with size / 2^level >= 2 only, as the property quantifies: the base grids have 4..8 samples per axis)
-            pyr = x0.pyramid(L_, sigma=0)
+            # the convention of the levels: the grid's own flag, or the one requested explicitly (which may differ from the grid's)
+            acx = (None, True, False)[(variant // 12) % 3]
+            ac_eff = base.align_corners() if acx is None else acx
+            sigp = dict(**sigp, ac_arg=str(acx))
+            pyr = x0.pyramid(L_, sigma=0) if acx is None else x0.pyramid(L_, sigma=0, align_corners=acx)
             if sorted(pyr.keys()) != list(range(L_)):
                 ctx.violation(dict(**sigp, attr="levels"), f"{kind}: pyramid({L_}) returns levels {sorted(pyr.keys())}", c)
                 return
-            gp = [g_.pyramid(L_) for g_ in srcs0]
+            gp = [g_.align_corners(ac_eff).pyramid(L_) for g_ in srcs0]
+            for lv in range(L_):
+                for gl in ([pyr[lv].grid()] if kind == "image" else list(pyr[lv].grids())):
+                    if gl.align_corners() != ac_eff:
+                        ctx.violation(dict(**sigp, attr="pyramid_flag", level=lv), f"{kind}: pyramid(align_corners={acx}) level {lv} carries a grid with align_corners={gl.align_corners()}, expected {ac_eff}", c)
+                        return
+            # ... also when the finest level is given its own spacing (level grids only: flag, and one common centre for all levels)
+            h_iso = float(base.spacing().min())
+            pys = x0.pyramid(L_, sigma=0, spacing=h_iso) if acx is None else x0.pyramid(L_, sigma=0, spacing=h_iso, align_corners=acx)
+            for lv in sorted(pys.keys()):
+                for it, gl in enumerate([pys[lv].grid()] if kind == "image" else list(pys[lv].grids())):
+                    if gl.align_corners() != ac_eff or max_err(gl.center(), srcs0[it].center()) > 1e-4 or tuple(gl.shape) != tuple((pys[lv].tensor() if kind != "image" else pys[lv].tensor().unsqueeze(0)).shape[2:]):
+                        ctx.violation(dict(**sigp, attr="pyramid_spacing_grid", level=lv), f"{kind}: pyramid(spacing={h_iso}, align_corners={acx}) level {lv} carries grid {gl!r} "
+                                      f"(expected align_corners={ac_eff}, centre {srcs0[it].center().tolist()}, the shape of its data)", c)
+                        return
             for lv in range(L_):
                 yl = pyr[lv]
                 gls = [yl.grid()] if kind == "image" else list(yl.grids())
@@ -347,7 +365,7 @@ def check_chain(ctx: Ctx, c: Dict[str, Any], variant: int = 0) -> None:
                         ctx.violation(dict(**sigp, attr="pyramid_data", level=lv, item=it), f"{kind}: pyramid level {lv} is off the ramp by {err:.3g} on {int(m.sum())} samples inside the field of view", c)
                         return
             for (st_, en_), want in (((1, -1), [1]), ((-1, -1), [1]), ((0, 0), [0]), ((-2, 1), [0, 1]), ((1, 0), [])):
-                sub = x0.pyramid(L_, start=st_, end=en_, sigma=0)
+                sub = x0.pyramid(L_, start=st_, end=en_, sigma=0) if acx is None else x0.pyramid(L_, start=st_, end=en_, sigma=0, align_corners=acx)
                 if sorted(sub.keys()) != want or any(max_err(sub[k_].tensor(), pyr[k_].tensor()) > 1e-6 for k_ in want):
                     ctx.violation(dict(**sigp, attr="pyramid_range", start=st_, end=en_), f"{kind}: pyramid({L_}, start={st_}, end={en_}) returns levels {sorted(sub.keys())} / other data than the full pyramid's levels {want}", c)
                     return
